@@ -282,7 +282,7 @@ def run_case(case):
             elif name == "saveload":
                 fmt = op[1]
                 complete = mL is not None and mA is not None
-                if complete and fmt in ("pdb",) and n > 1 and not np.allclose(mL, mL[0]):
+                if complete and fmt in ("pdb",) and n > 1 and not (np.allclose(mL, mL[0]) and np.allclose(mA, mA[0])):
                     labels.append("skip-pdb-varying")   # one CRYST1 record per file: cannot represent a varying cell
                     continue
                 if complete and fmt == "pdb" and (t.xyz.max() > 900 or mL.max() > 900):
